@@ -159,12 +159,6 @@ private theorem etc_area {w h : Nat} (hw : w % 8 = 0) (hh : h % 8 = 0) : w * h =
     _ = 64 * (h / 8 * (w / 8)) := by
       rw [Nat.mul_mul_mul_comm, Nat.mul_comm (w / 8) (h / 8), Nat.mul_comm]
 
-/-- The block word (and alpha word) of the block that holds pixel `(x, y)`. -/
-def etcWord (data : Buf) (w : Nat) (alpha : Bool) (x y : Nat) : Nat :=
-  leAt data (etcBlock w x y * (if alpha then 16 else 8) + (if alpha then 8 else 0)) 8
-def etcAlphaWord (data : Buf) (w : Nat) (alpha : Bool) (x y : Nat) : Nat :=
-  if alpha then leAt data (etcBlock w x y * 16) 8 else 0xFFFFFFFFFFFFFFFF
-
 /-- **Pixel placement, ETC1 / ETC1A4.** For every power-of-two size from 8 up and a payload of
 exactly the required size (4 resp. 8 bits per pixel) the decoder succeeds and pixel `(x, y)` is
 texel `(x % 4, y % 4)` of block number `etcBlock width x y` (8×8 tiles of 2×2 blocks). -/
@@ -174,7 +168,7 @@ theorem decode_pixel_etc (p : Profile) (data : Buf) (w h : Nat) (alpha : Bool)
     ∃ bmp, decodePixelData p data w h (if alpha then 13 else 12) = .ok bmp ∧ bmp.size = 4 * (w * h) ∧
       ∀ x y c, x < w → y < h → c < 4 →
         bmp.getD ((y * w + x) * 4 + c) 0 =
-          chanByte (Etc1.texel (etcAlphaWord data w alpha x y) (etcWord data w alpha x y) (x % 4) (y % 4)) c := by
+          chanByte (Etc1.texel (Spec.Etc1.alphaWordAt data w alpha x y) (Spec.Etc1.wordAt data w alpha x y) (x % 4) (y % 4)) c := by
   have harea := etc_area (pow2_mod8 hw) (pow2_mod8 hh)
   have hd' : data.size = (h / 8 * (w / 8) * 4) * Etc1.blockBytes alpha := by
     cases alpha <;> simp only [Etc1.blockBytes, Bool.false_eq_true, if_false, if_true] at hd ⊢ <;> omega
@@ -184,7 +178,42 @@ theorem decode_pixel_etc (p : Profile) (data : Buf) (w h : Nat) (alpha : Bool)
     cases alpha <;> simp
   · intro x y c hx hy hc
     rw [hpx x y c hx hy hc]
-    cases alpha <;> simp [Etc1.expByte, etcWord, etcAlphaWord, Etc1.blockBytes, leAt_eq]
+    cases alpha <;> simp [Etc1.expByte, Spec.Etc1.wordAt, Spec.Etc1.alphaWordAt, Etc1.blockBytes, leAt_eq]
+
+private theorem texel_chan_lt (alphas word x y c : Nat) : (Etc1.texel alphas word x y).chan c < 256 := by
+  have hc : ∀ b a, Etc1.clampAdd b a < 256 := by intro b a; unfold Etc1.clampAdd; omega
+  unfold Rgba.chan
+  split
+  · exact hc _ _
+  · exact hc _ _
+  · exact hc _ _
+  · have := (etc1a4_alpha alphas word x y).1
+    have hn : Spec.Etc1.alphaNibble alphas x y < 16 := Nat.mod_lt _ (by decide)
+    omega
+
+/-- **The property's ETC1 clause on output bytes.** For every power-of-two size from 8 up and an
+exact payload, the R, G, B bytes of pixel `(x, y)` equal the Khronos-rules colour of texel
+`(x % 4, y % 4)` of the block holding the pixel whenever that block is legal, and the alpha byte
+is within one step of (indeed exactly) the linear expansion of the pixel's alpha nibble. -/
+theorem decode_etc_spec (p : Profile) (data : Buf) (w h : Nat) (alpha : Bool)
+    (hw : PowerOfTwoFrom8 w) (hh : PowerOfTwoFrom8 h) (hwb : w < 2 ^ 16) (hhb : h < 2 ^ 16)
+    (hd : data.size * 8 = (if alpha then 8 else 4) * (w * h)) :
+    ∃ bmp, decodePixelData p data w h (if alpha then 13 else 12) = .ok bmp ∧ bmp.size = 4 * (w * h) ∧
+      ∀ x y, x < w → y < h →
+        (Spec.Etc1.Legal (Spec.Etc1.wordAt data w alpha x y) → ∀ ch, ch < 3 →
+          (((bmp.getD ((y * w + x) * 4 + ch) 0).toNat : Nat) : Int) =
+            Spec.Etc1.channel (Spec.Etc1.wordAt data w alpha x y) (x % 4) (y % 4) ch) ∧
+        withinStep 4 (Spec.Etc1.alphaNibble (Spec.Etc1.alphaWordAt data w alpha x y) (x % 4) (y % 4))
+          (bmp.getD ((y * w + x) * 4 + 3) 0).toNat := by
+  obtain ⟨bmp, hb, hsz, hpx⟩ := decode_pixel_etc p data w h alpha hw hh hwb hhb hd
+  refine ⟨bmp, hb, hsz, ?_⟩
+  intro x y hx hy
+  constructor
+  · intro hl ch hch
+    rw [hpx x y ch hx hy (by omega), chanByte_toNat _ _ (texel_chan_lt _ _ _ _ _)]
+    exact etc1_rules _ _ _ _ (Nat.mod_lt _ (by decide)) (Nat.mod_lt _ (by decide)) hl ch hch
+  · rw [hpx x y 3 hx hy (by omega), chanByte_toNat _ _ (texel_chan_lt _ _ _ _ _)]
+    exact (etc1a4_alpha _ _ _ _).2
 
 /-! ### RGB5A3 and CI8 -/
 
@@ -228,6 +257,43 @@ theorem ci8_block_spec (palette image : Buf) (w h : Nat) (hw : 0 < w) (hh : 0 < 
           chanByte (decodeRgb5a3 (be16At palette (2 * (image.getD (ci8Offset (pad8 w) x y) 0).toNat))) c := by
   obtain ⟨out, h1, h2, h3⟩ := ci8_decode palette image w h hw hh hp hi hidx
   exact ⟨out, h1, h2, fun x y c hx hy hc => by rw [h3 x y c hx hy hc, be16At_eq]⟩
+
+private theorem rgb5a3_chan_lt (v c : Nat) : (decodeRgb5a3 v).chan c < 256 := by
+  have := rgb5a3_spec v
+  unfold pixelOk at this
+  obtain ⟨hr, hg, hb, ha⟩ := this
+  have le_of : ∀ s c, chanOk s v c → c ≤ 255 := by
+    intro s c h; cases s <;> simp only [chanOk, withinStep] at h <;> omega
+  unfold Rgba.chan
+  split
+  · exact Nat.lt_succ_of_le (le_of _ _ hr)
+  · exact Nat.lt_succ_of_le (le_of _ _ hg)
+  · exact Nat.lt_succ_of_le (le_of _ _ hb)
+  · exact Nat.lt_succ_of_le (le_of _ _ ha)
+
+/-- **The property's palette-image clause on output bytes**: the four bytes of pixel `(x, y)` are an
+admissible rendering (RGB5A3 layout, one-step tolerance) of the palette entry selected by the
+index at the 8×4 block position of `(x, y)`. -/
+theorem ci8_pixel_spec (palette image : Buf) (w h : Nat) (hw : 0 < w) (hh : 0 < h)
+    (hp : palette.size % 2 = 0) (hi : image.size = ((h + 3) / 4 * 4) * pad8 w)
+    (hidx : ∀ x y, x < w → y < h → (image.getD (ci8Offset (pad8 w) x y) 0).toNat < palette.size / 2) :
+    ∃ out, tplDecodeImage 2 palette 9 h w image = .ok out ∧ out.size = 4 * (h * w) ∧
+      ∀ x y, x < w → y < h →
+        let v := be16At palette (2 * (image.getD (ci8Offset (pad8 w) x y) 0).toNat)
+        pixelOk (rgb5a3Layout v) v (out.getD ((y * w + x) * 4) 0).toNat (out.getD ((y * w + x) * 4 + 1) 0).toNat
+          (out.getD ((y * w + x) * 4 + 2) 0).toNat (out.getD ((y * w + x) * 4 + 3) 0).toNat := by
+  obtain ⟨out, h1, h2, h3⟩ := ci8_block_spec palette image w h hw hh hp hi hidx
+  refine ⟨out, h1, h2, ?_⟩
+  intro x y hx hy
+  have e0 := h3 x y 0 hx hy (by omega)
+  have e1 := h3 x y 1 hx hy (by omega)
+  have e2 := h3 x y 2 hx hy (by omega)
+  have e3 := h3 x y 3 hx hy (by omega)
+  rw [Nat.add_zero] at e0
+  simp only []
+  rw [e0, e1, e2, e3, chanByte_toNat _ _ (rgb5a3_chan_lt _ 0), chanByte_toNat _ _ (rgb5a3_chan_lt _ 1),
+    chanByte_toNat _ _ (rgb5a3_chan_lt _ 2), chanByte_toNat _ _ (rgb5a3_chan_lt _ 3)]
+  exact rgb5a3_spec _
 
 /-! ### arithmetic profiles -/
 
